@@ -40,7 +40,30 @@ def contains_stranger(v):
 
 
 def node_has_stranger(n):
-    return n["t"][1] == "stranger" or any(node_has_stranger(k) for k in n["k"])
+    return n["t"][1] == "stranger" or n["t"][0] == "urn:zzz" or any(node_has_stranger(k) for k in n["k"])
+
+
+def content_kind(case, parent):
+    """kind of the content particle of the parent's type ('seq' / 'choice' / 'all' / None)"""
+    ln = etree.QName(parent.tag).localname
+    tname = case.src["root"][1] if ln == "root" else None
+    if tname is None:
+        for t in case.src["types"].values():
+            def find(p):
+                if p is None:
+                    return None
+                if p["k"] == "elem":
+                    return p["type"] if p["name"] == ln else None
+                for i in p.get("items", []):
+                    r = find(i)
+                    if r:
+                        return r
+                return None
+            tname = tname or find(t.get("content"))
+    t = case.src["types"].get(tname)
+    if not t or not t.get("content"):
+        return None
+    return t["content"]["k"]
 
 
 def parent_kind(case, parent):
@@ -107,12 +130,24 @@ def run(ctx):
                 for pos in positions:
                     d = copy.deepcopy(doc)
                     p2 = [e for e in d.iter()][pi]
-                    x = etree.Element(ctx.rng.choice(["{urn:zzz}stranger", "stranger", "{%s}stranger" % xsdgen.TNS]))
+                    names = ["{urn:zzz}stranger", "stranger", "{%s}stranger" % xsdgen.TNS]
+                    sib = ctx.rng.choice(list(parent)) if len(parent) else None
+                    if sib is not None:
+                        # another vendor's element that happens to share the local name of a declared sibling
+                        names.append("{urn:zzz}%s" % etree.QName(sib.tag).localname)
+                    x = etree.Element(ctx.rng.choice(names))
                     x.text = "s"
+                    if sib is not None and x.tag == names[-1] and len(sib) == 0 and sib.text:
+                        x.text = sib.text         # a lexically valid text for the sibling's type
                     p2.insert(pos, x)
                     pk = parent_kind(case, parent)
                     ty = case.model_type(xsdgen.height(d) + 1)
+                    same_local = x.tag.startswith("{urn:zzz}") and not x.tag.endswith("}stranger")
+                    if same_local:
+                        res.count("stranger:foreign-namespace-same-local-name")
                     for strict in (True, False):
+                        if same_local and not strict and content_kind(case, parent) != "all":
+                            continue      # non-strict decoding of sequences / choices matches by local name (zeep's documented leniency)
                         r = enginea.impl_parse(case, d, strict)
                         c = dict(seed=seed, profile="core", xsd=case.xsd, document=etree.tostring(d).decode(), strict=strict, parent_kind=pk)
                         res.case(key=(seed, pi, pos, strict, x.tag), nontrivial=True)
@@ -130,13 +165,17 @@ def run(ctx):
                                 fail = "non-strict decoding raised %s %s" % (r["outcome"], r.get("msg", ""))
                         if fail:
                             f = dict(what=fail, case=c)
-                            if pk == "K1" and r["outcome"] == "ok":
+                            if same_local and strict and not case.src["qualified"] and r["outcome"] == "ok":
+                                f["known"] = "K16"
+                                res.known_hits["K16"] = res.known_hits.get("K16", 0) + 1
+                            elif pk == "K1" and r["outcome"] == "ok":
                                 f["known"] = "K1"
                                 res.known_hits["K1"] = res.known_hits.get("K1", 0) + 1
                             res.failures.append(f)
                         if not xsitype:
                             pending.append(({"op": "xsd.parse", "mode": "strict" if strict else "lax", "ty": ty, "node": xmlcanon.node(d, strip_ws=True)}, r, ty, c))
     c03.compare_model(ctx, res, pending)
+    nil_cases(ctx, res)
     header_cases(ctx, res)
     if pending:
         res.sample(dict(document=pending[len(pending) // 2][3]["document"][:500], strict=pending[len(pending) // 2][3]["strict"]))
@@ -146,6 +185,49 @@ def run(ctx):
                 "tier), at every depth, decoded in strict and non-strict mode; plus SOAP replies with declared output headers and an unknown "
                 "header entry at every position. distinct = distinct (schema, parent, position, mode)")
     return res
+
+
+NIL_XSD = ('<xs:schema xmlns:xs="http://www.w3.org/2001/XMLSchema" xmlns:t="urn:fam" targetNamespace="urn:fam" elementFormDefault="qualified">'
+           '<xs:element name="root" type="t:T1"/>'
+           '<xs:complexType name="T1"><xs:sequence><xs:element name="a" type="xs:string"/><xs:element name="c" type="t:T2" nillable="true" minOccurs="0" maxOccurs="2"/>'
+           '<xs:element name="d" type="xs:string" minOccurs="0"/></xs:sequence></xs:complexType>'
+           '<xs:complexType name="T2"><xs:sequence><xs:element name="x" type="xs:string"/></xs:sequence><xs:attribute name="id" type="xs:int"/></xs:complexType></xs:schema>')
+
+
+def nil_cases(ctx, res):
+    """a nilled complex element (valid: empty, xsi:nil='true') with an undeclared child put inside it"""
+    import zeep.xsd
+    import zeep.settings
+    val = etree.XMLSchema(etree.fromstring(NIL_XSD.encode()))
+    docs = ['<root xmlns="urn:fam" xmlns:xsi="%s"><a>1</a><c xsi:nil="true"/></root>',
+            '<root xmlns="urn:fam" xmlns:xsi="%s"><a>1</a><c><x>v</x></c><c xsi:nil="true" id="3"/><d>z</d></root>',
+            '<root xmlns="urn:fam" xmlns:xsi="%s"><a>1</a><c xsi:nil="1"/><d>z</d></root>']
+    for strict in (True, False):
+        zs = zeep.xsd.Schema(etree.fromstring(NIL_XSD.encode()), settings=zeep.settings.Settings(strict=strict))
+        root = zs.get_element("{urn:fam}root")
+        for text in docs:
+            doc = etree.fromstring((text % xsdgen.XSI).encode())
+            assert val.validate(doc)
+            for c_el in [e for e in doc.iter("{urn:fam}c") if e.get("{%s}nil" % xsdgen.XSI)]:
+                idx = [e for e in doc.iter()].index(c_el)
+                for tag in ("{urn:zzz}stranger", "{urn:fam}stranger", "stranger"):
+                    d = copy.deepcopy(doc)
+                    p2 = [e for e in d.iter()][idx]
+                    x = etree.SubElement(p2, tag)
+                    x.text = "s"
+                    res.case(key=("nil", strict, text, tag), nontrivial=True)
+                    res.count("stranger-inside-nilled-complex-element")
+                    c = dict(kind="nil-complex", strict=strict, xsd=NIL_XSD, document=etree.tostring(d).decode())
+                    try:
+                        v = root.parse(d, zs)
+                        kept = contains_stranger(enginea.canon_value(v))
+                        if strict:
+                            res.failures.append(dict(what="strict mode accepted an undeclared element inside a nilled complex element", case=c))
+                        elif not kept:
+                            res.failures.append(dict(what="non-strict mode dropped an undeclared element inside a nilled complex element without trace", case=c))
+                    except Exception as e:  # noqa
+                        if type(e).__name__ not in ("XMLParseError", "UnexpectedElementError"):
+                            res.failures.append(dict(what="decoding raised %s: %s" % (type(e).__name__, e), case=c))
 
 
 HWSDL = """<?xml version="1.0"?>
@@ -181,7 +263,14 @@ def header_cases(ctx, res):
             r._content = box["reply"]
             return r
     declared = ['<h1 xmlns="urn:t">one</h1>', '<h2 xmlns="urn:t">2</h2>']
-    unknown = '<u:Unknown xmlns:u="urn:unknown" id="7">kept?</u:Unknown>'
+    for unknown, uname in (('<u:Unknown xmlns:u="urn:unknown" id="7">kept?</u:Unknown>', "Unknown"),
+                           ('<u:h1 xmlns:u="urn:unknown" id="7">kept?</u:h1>', "h1")):
+        _header_cases(ctx, res, T, box, declared, unknown, uname)
+
+
+def _header_cases(ctx, res, T, box, declared, unknown, uname):
+    import zeep
+    import zeep.settings
     for strict in (True, False):
         client = zeep.Client(io.BytesIO(HWSDL.encode()), transport=T(), settings=zeep.settings.Settings(strict=strict))
         for present in ([0, 1], [0], [1], []):
@@ -190,13 +279,15 @@ def header_cases(ctx, res):
                 es = list(entries)
                 es.insert(pos, unknown)
                 box["reply"] = ('<e:Envelope xmlns:e="%s"><e:Header>%s</e:Header><e:Body><out xmlns="urn:t">ok</out></e:Body></e:Envelope>' % (ENV, "".join(es))).encode()
-                res.case(key=("hdr", strict, tuple(present), pos), nontrivial=True)
+                res.case(key=("hdr", uname, strict, tuple(present), pos), nontrivial=True)
                 res.count("soap-header")
                 c = dict(kind="soap-header", strict=strict, declared_present=present, position=pos, reply=box["reply"].decode())
                 try:
                     r = client.service.op("x")
                     raw = r.header["_raw_elements"] if "_raw_elements" in r.header else None
-                    ok = raw is not None and any(etree.QName(x.tag).localname == "Unknown" and x.text == "kept?" for x in raw)
+                    ok = raw is not None and any(etree.QName(x.tag).namespace == "urn:unknown" and x.text == "kept?" for x in raw)
+                    if ok and uname == "h1" and 0 in present and r.header["h1"] != "one":
+                        ok = False          # the foreign entry displaced the declared one
                     if not ok:
                         res.failures.append(dict(what="unknown SOAP header entry was not kept as a raw element", case=c))
                 except Exception as e:  # noqa
@@ -210,6 +301,10 @@ def search(ctx):
 
 def replay(ctx, payload):
     c = payload.get("case", payload)
+    if c.get("kind") == "nil-complex":
+        r = Result()
+        nil_cases(ctx, r)
+        return (not r.failures), "nil-complex rerun: %d failures" % len(r.failures)
     if c.get("kind") == "soap-header":
         r = Result()
         header_cases(ctx, r)
@@ -224,6 +319,15 @@ def replay(ctx, payload):
 
 def replay_finding(ctx, finding):
     import zeep.xsd
+    if finding["id"] == "K16":
+        xsd = ('<xs:schema xmlns:xs="http://www.w3.org/2001/XMLSchema" xmlns:t="urn:fam" targetNamespace="urn:fam"><xs:element name="root" type="t:T1"/>'
+               '<xs:complexType name="T1"><xs:sequence><xs:element name="a" type="xs:string" maxOccurs="unbounded"/></xs:sequence></xs:complexType></xs:schema>')
+        zs = zeep.xsd.Schema(etree.fromstring(xsd.encode()))
+        try:
+            zs.get_element("{urn:fam}root").parse(etree.fromstring(b'<q:root xmlns:q="urn:fam"><a>1</a><z:a xmlns:z="urn:zzz">foreign</z:a></q:root>'), zs)
+            return True
+        except Exception:  # noqa
+            return False
     xsd = ('<xs:schema xmlns:xs="http://www.w3.org/2001/XMLSchema" xmlns:t="urn:fam" targetNamespace="urn:fam" elementFormDefault="qualified"><xs:element name="root" type="t:T1"/>'
            '<xs:complexType name="T1"><xs:sequence><xs:element name="e" type="t:T2"/></xs:sequence></xs:complexType><xs:complexType name="T2"/></xs:schema>')
     zs = zeep.xsd.Schema(etree.fromstring(xsd.encode()))
